@@ -660,7 +660,7 @@ class Wigner:
                 Hwedge, z[0], z[2]
             )
         else:
-            D = self.D(R, workspace)
+            D = self.D(R, workspace=workspace)
             _rotate(
                 mode_weights, rotated_mode_weights,
                 self.ell_min, self.ell_max, self.mp_max,
